@@ -306,6 +306,38 @@ def check(case):
     if v0 is None and g0 is None:
         return
 
+    # ---- one filter, simulated populations of different sizes ------------------------
+    # (nothing computed for one set of simulated individuals may carry over to the next)
+    with case.clause('other_sample_size'):
+        # (the mixture filters need a multiple of their number of kernels)
+        m = int(np.lcm.reduce([int(p.get('nk') or 1) for p in parts]))
+        reps = -(-m // sim.shape[0])
+        extra = np.concatenate([sim * (1.03 + 0.01 * r) + 0.02 for r in range(reps)])[:m]
+        for label, sim2 in (('%d more simulated individual(s)' % m, np.concatenate([sim, extra])),
+                            ('twice as many simulated individuals', np.concatenate([sim, sim * 1.03 + 0.02]))):
+            want2 = float(np.real(rf.filter_loglik(parts, obs, sim2)))
+            if not np.isfinite(want2):
+                continue
+            _value(case, f, sim2, want2, 'log-likelihood on the same filter with %s' % label)
+            sc2, g2 = f.compute_sensitivities(sim2.copy())
+            case.close(float(sc2), want2, rtol=1e-9, what='score of compute_sensitivities on the same filter with %s' % label)
+            case.equal(np.shape(g2), sim2.shape, 'sensitivities shape with %s' % label, kind='shape')
+        _same_as_base(case, f, sim, v0, g0, 'the first simulated population again')
+
+    # ---- a rejected order leaves the filter as it was ----------------------------------
+    if n_times >= 2:
+        with case.clause('rejected_order'):
+            for label, bad in (('a repeated index', [0] * 2 + list(range(2, n_times))),
+                               ('a wrong length', list(range(n_times - 1, -1, -1)) + [0])):
+                try:
+                    f.sort_times(np.array(bad, dtype=int))
+                except ValueError:
+                    pass
+                else:
+                    case.fail('accepted', 'sort_times accepted an order with %s: %r' % (label, bad))
+            case.equal(int(f.n_times()), n_times, 'n_times after rejected sort_times calls')
+            _same_as_base(case, f, sim, v0, g0, 'after sort_times calls that were rejected')
+
     # ---- missing-data invariance -------------------------------------------
     if s['pad']:
         with case.clause('pad'):
